@@ -98,6 +98,8 @@ class Layouts:
             stem = os.path.splitext(os.path.basename(path))[0]
             for m in re.finditer(r'\bconst\s+(\w+)\s*:\s*&(?:\'static\s+)?str\s*=\s*"((?:[^"\\]|\\.)*)"\s*;', src):
                 self.consts.setdefault((stem, m.group(1)), m.group(2).encode().decode('unicode_escape'))
+            for m in re.finditer(r'\bconst\s+(\w+)\s*:\s*&(?:\'static\s+)?\[u8\]\s*=\s*b"((?:[^"\\]|\\.)*)"\s*;', src):
+                self.consts.setdefault((stem, m.group(1)), ('bytes', m.group(2).encode().decode('unicode_escape').encode('latin1')))
             for m in re.finditer(r'\bconst\s+(\w+)\s*:\s*(?:usize|u64|u32|u16|u8|i64|i32)\s*=\s*([\d_]+)\s*;', src):
                 self.consts.setdefault((stem, m.group(1)), int(m.group(2).replace('_', '')))
         for m in re.finditer(r'\b(enum|struct)\s+(\w+)', src):
